@@ -831,8 +831,15 @@ def run_isolated(ctx, prog, out, timeout, pkg_dir):
             data = json.dumps(rec).encode()
             with os.fdopen(w, "wb") as f:
                 f.write(data)
-        except BaseException:
+        except BaseException as exc:
             code = 3
+            try:
+                os.write(w, json.dumps({
+                    "pid": prog["pid"], "obs": {},
+                    "died": "python exception in child: %s: %s" % (
+                        type(exc).__name__, str(exc)[:200])}).encode())
+            except BaseException:
+                pass
         finally:
             os._exit(code)
     os.close(w)
